@@ -1710,6 +1710,9 @@ pub fn gen_c14(ctx: &Ctx, run: u64) -> ScenarioA {
                 if rng.chance(1, 8) {
                     script.push(Intent::SetOption { name: "Threads".into(), value: "1".into() });
                 }
+                if rng.chance(1, 8) {
+                    script.push(Intent::SetOption { name: "Hash".into(), value: rng.pick(&["1", "2", "4"]).to_string() });
+                }
                 script.push(Intent::Go(g));
             }
             script.push(Intent::Stop);
@@ -1766,6 +1769,9 @@ pub fn gen_c14(ctx: &Ctx, run: u64) -> ScenarioA {
             }
             let overhead = if rng.chance(1, 2) { 0 } else { rng.range(0, (r / 2).min(1_000)) };
             script.push(Intent::SetOption { name: "Move Overhead".into(), value: overhead.to_string() });
+            if rng.chance(1, 6) {
+                script.push(Intent::SetOption { name: rng.pick(&["Hash", "Threads"]).to_string(), value: "1".into() });
+            }
             script.push(Intent::Go(g));
             script.push(Intent::WaitBestmove);
             n_search += 1;
